@@ -110,6 +110,22 @@ class Src:
                 v.shape = ir.Shape([3, "N"])
             v.metadata_props["vf.k"] = str(k)
             v.meta["vf.m"] = k
+        # device annotations (two configurations per node, in both attachment orders): a sharding spec is a reference
+        # to one of the node's values - in an extracted graph it must point into the extracted graph
+        holder = ir.Model(ir.Graph([], [], nodes=[], name="cfg_holder"), ir_version=11)
+        ca = holder.add_device_configuration("ca", num_devices=2)
+        cb = holder.add_device_configuration("cb", num_devices=2)
+        for k, node in sorted(self.nodes.items()):
+            held = [v for v in list(node.inputs) + list(node.outputs) if v is not None]
+            try:
+                if k % 2:
+                    node.shard(held[0], configuration=ca, axis=0, num_shards=2, device_indices=(0, 1))
+                    node.set_pipeline_stage(cb, 1)
+                else:
+                    node.set_pipeline_stage(cb, 1)
+                    node.shard(held[-1], configuration=ca, axis=0, num_shards=2, device_indices=(0, 1))
+            except Exception:  # noqa: BLE001 - no annotation on this node
+                pass
         self.val_id = {id(v): k for k, v in self.vals.items()}
         self.obj_ids = set(self.val_id) | {id(n) for n in self.nodes.values()} | {id(g) for g in self.graphs.values()}
         self.obj_ids |= {id(self.function), id(self.view)}
@@ -256,6 +272,10 @@ def shared_objects(src: Src, res) -> list:
                     bad.append("value:node-output")
                 else:
                     bad.extend(f"value-part:{src.part_ids[id(o)]}" for _, o in value_parts(v) if id(o) in src.part_ids)
+            for dc in n.device_configurations:
+                for spec in dc.sharding_specs:
+                    if spec.value is not None and id(spec.value) in oid:
+                        bad.append("value:sharding-spec")
             for a in n.attributes.values():
                 if a.type == GRAPH:
                     subs = [a.as_graph()]
